@@ -82,6 +82,15 @@ LongCases ==
    /\ P(CaseRec("long", "Unsqueeze", <<>>, <<X, I64(<<0, 2>>)>>, SemUnsqueeze(X, I64(<<0, 2>>)), <<"valid", "long">>))
    /\ P(CaseRec("long", "Shape", <<>>, <<X2>>, SemShape(X2), <<"valid", "long">>))
 
+\* rank-5 operands (the quantifier's upper rank; shape slices of 5 entries are the first whose copies have spare capacity)
+Rank5Cases ==
+   LET X == Iota("f32", <<2, 3, 4, 1, 2>>, 0) Y == Iota("f32", <<2, 1, 2, 1, 2>>, 0) IN
+   /\ \A ax \in {<<2>>, <<0, 3>>, <<-1>>, <<5>>, <<1, 1>>, <<0>>} : LET a == SemUnsqueeze(X, I64(ax)) IN P(CaseRec("unsqueeze", "Unsqueeze", <<>>, <<X, I64(ax)>>, a, <<Outcome(a), "rank5">>))
+   /\ \A ax \in {<<1>>, <<3, 1>>, <<-2>>, <<0>>} : LET a == SemSqueeze(Y, I64(ax)) IN P(CaseRec("squeeze", "Squeeze", <<>>, <<Y, I64(ax)>>, a, <<Outcome(a), "rank5">>))
+   /\ LET a == SemSqueeze(Y, Nil) IN P(CaseRec("squeeze", "Squeeze", <<>>, <<Y>>, a, <<Outcome(a), "rank5">>))
+   /\ \A ax \in {0, 2, 5, -1, -5} : LET a == SemFlatten(X, ax) IN P(CaseRec("flatten", "Flatten", <<AI("axis", ax)>>, <<X>>, a, <<Outcome(a), "rank5">>))
+   /\ \A tg \in {<<0, 0, -1>>, <<-1>>, <<0, 3, 4, 1, 2>>, <<6, 0, 2, 2>>} : LET a == SemReshape(X, I64(tg)) IN P(CaseRec("reshape", "Reshape", <<>>, <<X, I64(tg)>>, a, <<Outcome(a), "rank5">>))
+   /\ P(CaseRec("shape", "Shape", <<>>, <<X>>, SemShape(X), <<"valid", "rank5">>))
 \* very many axes (an output of rank 66 and more): still any set of valid axes, duplicates still refused - also beyond position 64
 ManyAxesCases ==
    LET X == Iota("f32", <<3>>, 0) base == [i \in 1..65 |-> i - 1] IN
@@ -118,7 +127,7 @@ Emit ==
                                   /\ \A axes \in AxesLists(Len(st.shape), AxesLen) : P(SqueezeCase(st.shape, axes, FALSE))
         [] st.fam = "unsqueeze" -> \A axes \in AxesLists(Len(st.shape) + 1, MinI(AxesLen, 5 - Len(st.shape))) :
                                       (Len(axes) > 1 => Range(axes) \subseteq AxisVals(Len(st.shape) + Len(axes))) => P(UnsqueezeCase(st.shape, axes))
-        [] st.fam = "shape"    -> P(ShapeCase(st.shape, "f32")) /\ (Len(st.shape) <= 2 => ExtremeAxisCases(st.shape)) /\ (st.shape = <<>> => LongCases /\ TileShapeCases /\ ManyAxesCases /\ \A X \in SpecialValueXs : \A i \in 1..5 : P(DtypeCasesX(X.dt \o "_special", X)[i]))
+        [] st.fam = "shape"    -> P(ShapeCase(st.shape, "f32")) /\ (Len(st.shape) <= 2 => ExtremeAxisCases(st.shape)) /\ (st.shape = <<>> => LongCases /\ TileShapeCases /\ ManyAxesCases /\ Rank5Cases /\ \A X \in SpecialValueXs : \A i \in 1..5 : P(DtypeCasesX(X.dt \o "_special", X)[i]))
         [] st.fam = "dtypes"   -> \A i \in 1..5 : P(DtypeCases(st.dt, st.shape)[i])
    /\ st' = [st EXCEPT !.done = TRUE]
 Next == Emit
